@@ -46,6 +46,7 @@ type Obs struct {
 }
 
 type Rec struct {
+	Mode   string     `json:"mode"`
 	ID     int        `json:"id"`
 	Shapes [][]string `json:"shapes"`
 	Order  [][]any    `json:"order"`
@@ -54,7 +55,7 @@ type Rec struct {
 }
 
 func runOne(id int, sc Scenario, seed int64) Rec {
-	rec := Rec{ID: id, Shapes: sc.Shapes, Order: sc.Order, Fault: sc.Fault, Obs: Obs{Events: []ObsEvent{}}}
+	rec := Rec{Mode: "stepwise", ID: id, Shapes: sc.Shapes, Order: sc.Order, Fault: sc.Fault, Obs: Obs{Events: []ObsEvent{}}}
 	failAt := 0
 	if sc.Fault.Kind == "writefail" {
 		failAt = 1 + sc.Fault.At // one write for the session's own LOGIN record
@@ -101,6 +102,7 @@ func runOne(id int, sc Scenario, seed int64) Rec {
 			if alive {
 				alive = l.Barrier()
 			}
+			l.ExpectReturn()
 			l.Settle()
 			alive = alive && !l.Retd
 		}
@@ -112,6 +114,7 @@ func runOne(id int, sc Scenario, seed int64) Rec {
 			bad := fmt.Sprintf("type=LOGIN msg=audit(%d.000:%d): pid=%s uid=0 old-auid=4294967295 auid=1000 tty=(none) old-ses=4294967295 ses=%d res=1",
 				1690000000+pos, base-100+pos, []string{"abc", "12x", "", "0x1f"}[pos%4], 800000+id%1000)
 			alive = l.SendRaw(bad) && l.Barrier()
+			l.ExpectReturn()
 			l.Settle()
 			alive = alive && !l.Retd
 		}
@@ -129,6 +132,12 @@ func runOne(id int, sc Scenario, seed int64) Rec {
 	if !l.Retd {
 		l.Settle()
 	}
+	observe(&rec, l, badline)
+	return rec
+}
+
+func observe(recp *Rec, l *l1.L2, badline string) {
+	rec := recp
 	// observation
 	switch {
 	case !l.Retd:
@@ -173,6 +182,147 @@ func runOne(id int, sc Scenario, seed int64) Rec {
 		}
 		rec.Obs.Events = append(rec.Obs.Events, o)
 	}
+}
+
+// the lines of a scenario, with the fault's line spliced in
+type feed struct {
+	lines   []string
+	badline string
+}
+
+func scenarioLines(id int, sc Scenario, seed int64, sess string) feed {
+	base := 7000000 + int(seed%100000)
+	stamp := func(e int) string { return fmt.Sprintf("audit(%d.%03d:%d)", 1700000000+e, e, base+e) }
+	line := func(e int, kind string) string {
+		st := stamp(e)
+		switch kind {
+		case "U":
+			return fmt.Sprintf("type=USER_START msg=%s: pid=%d uid=0 auid=1000 ses=%s msg='op=PAM:session_open grantors=pam_unix acct=\"u\" exe=\"/usr/sbin/sshd\" hostname=127.0.0.1 addr=127.0.0.1 terminal=ssh res=success'", st, 900+e, sess)
+		case "S":
+			return fmt.Sprintf("type=SYSCALL msg=%s: arch=c000003e syscall=59 success=yes exit=0 a0=1 a1=2 a2=3 a3=8 items=1 ppid=%d pid=%d auid=1000 uid=1000 gid=1000 euid=1000 suid=1000 fsuid=1000 egid=1000 sgid=1000 fsgid=1000 tty=pts3 ses=%s comm=\"c%d\" exe=\"/usr/bin/ls\" key=\"k\"", st, 800+e, 900+e, sess, e)
+		case "E":
+			return fmt.Sprintf("type=EXECVE msg=%s: argc=2 a0=\"ls\" a1=\"--ev=%d\"", st, e)
+		case "C":
+			return fmt.Sprintf("type=CWD msg=%s: cwd=\"/home/u%d\"", st, e)
+		}
+		return fmt.Sprintf("type=PROCTITLE msg=%s: proctitle=6C73", st)
+	}
+	f := feed{badline: fmt.Sprintf("this is not an audit record %d-%d", id, seed%1000)}
+	for i := 0; i <= len(sc.Order); i++ {
+		pos := i + 1
+		if sc.Fault.Kind == "malformed" && sc.Fault.At == pos {
+			f.lines = append(f.lines, f.badline)
+		}
+		if sc.Fault.Kind == "badpid" && sc.Fault.At == pos {
+			f.lines = append(f.lines, fmt.Sprintf("type=LOGIN msg=audit(%d.000:%d): pid=%s uid=0 old-auid=4294967295 auid=1000 tty=(none) old-ses=4294967295 ses=%d res=1",
+				1690000000+pos, base-100+pos, []string{"abc", "12x", "", "0x1f"}[pos%4], 800000+id%1000))
+		}
+		if i < len(sc.Order) {
+			f.lines = append(f.lines, line(int(sc.Order[i][0].(float64)), sc.Order[i][1].(string)))
+		}
+	}
+	return f
+}
+
+func setup(l *l1.L2) (string, bool) {
+	if ok, _ := l.Apply(l1.Call{K: "login", ID: 1, Pid: 1}); !ok {
+		return "", false
+	}
+	if ok, _ := l.Apply(l1.Call{K: "audit", Tag: 1, Sess: "s1", Typ: "LOGIN", Pid: 1, Res: "success"}); !ok {
+		return "", false
+	}
+	if len(l.W.Enc.Take()) != 1 {
+		return "", false
+	}
+	return l.W.RealSess("s1"), true
+}
+
+// runBacklog: the whole stream is already queued in a buffered Audits channel when the parser gets to it.
+func runBacklog(id int, sc Scenario, seed int64) Rec {
+	rec := Rec{Mode: "backlog", ID: id, Shapes: sc.Shapes, Order: sc.Order, Fault: sc.Fault, Obs: Obs{Events: []ObsEvent{}}}
+	failAt := 0
+	if sc.Fault.Kind == "writefail" {
+		failAt = 1 + sc.Fault.At
+	}
+	l := l1.NewL2Buf(seed, failAt, 64, true)
+	defer l.Close()
+	sess, ok := setup(l)
+	if !ok {
+		rec.Obs.Ret = "setup-failed"
+		return rec
+	}
+	f := scenarioLines(id, sc, seed, sess)
+	// hold the parser with a gate: pre-load while it is busy with a first (blocked) encoder call? simpler: the
+	// channel is buffered, a burst of sends completes at once and the parser finds a backlog
+	for _, ln := range f.lines {
+		if !l.Preload(ln) {
+			rec.Obs.Ret = "setup-failed"
+			return rec
+		}
+	}
+	faulty := sc.Fault.Kind != "none"
+	if faulty {
+		l.WaitReturn(1500 * time.Millisecond)
+	} else {
+		dl := time.Now().Add(2 * time.Second)
+		for !l.Drained() && time.Now().Before(dl) {
+			time.Sleep(100 * time.Microsecond)
+		}
+		l.Barrier()
+		l.Settle()
+	}
+	observe(&rec, l, f.badline)
+	return rec
+}
+
+// runBusy: the failing event write is reported while Read is busy handling a login (not parked in its select).
+func runBusy(id int, sc Scenario, seed int64) Rec {
+	rec := Rec{Mode: "busy", ID: id, Shapes: sc.Shapes, Order: sc.Order, Fault: sc.Fault, Obs: Obs{Events: []ObsEvent{}}}
+	failAt := 1 + sc.Fault.At
+	l := l1.NewL2Buf(seed, failAt, 64, true)
+	defer l.Close()
+	sess, ok := setup(l)
+	if !ok {
+		rec.Obs.Ret = "setup-failed"
+		return rec
+	}
+	// gate the failing Encode until Read has taken a login and entered RemoteLogin
+	atFail := make(chan struct{}, 1)
+	gate := make(chan struct{})
+	n := 1
+	l.W.Enc.Point = func() func() {
+		n++
+		if n == failAt {
+			atFail <- struct{}{}
+			select {
+			case <-gate:
+			case <-time.After(3 * time.Second):
+			}
+		}
+		return func() {}
+	}
+	f := scenarioLines(id, sc, seed, sess)
+	for _, ln := range f.lines {
+		l.Preload(ln)
+	}
+	select {
+	case <-atFail:
+		for len(l.LoginEntered()) > 0 {
+			<-l.LoginEntered()
+		}
+		if l.SendLoginAsync(50, 3) {
+			select {
+			case <-l.LoginEntered(): // Read is inside RemoteLogin now (about to wait for the tracker's mutex)
+				time.Sleep(200 * time.Microsecond)
+			case <-time.After(time.Second):
+			}
+		}
+		close(gate)
+	case <-time.After(2 * time.Second):
+		close(gate)
+	}
+	l.WaitReturn(1500 * time.Millisecond)
+	observe(&rec, l, f.badline)
 	return rec
 }
 
@@ -180,6 +330,7 @@ func main() {
 	in := flag.String("in", "", "scenarios (json lines)")
 	out := flag.String("out", "", "trace (ndjson)")
 	seed := flag.Int64("seed", 1, "seed")
+	backlogEvery := flag.Int("backlogevery", 1, "also run every n-th scenario with the stream queued as a backlog")
 	flag.Parse()
 	l1.InstallL2Hook()
 	var scs []Scenario
@@ -196,6 +347,18 @@ func main() {
 	recs := make([]Rec, len(scs))
 	for i, sc := range scs {
 		recs[i] = runOne(i, sc, *seed*100003+int64(i))
+	}
+	// the same scenarios with the stream queued as a backlog, and failing writes reported while Read is busy
+	n0 := len(recs)
+	for i, sc := range scs {
+		if sc.Fault.Kind != "badlogin" && (i%*backlogEvery == 0 || sc.Fault.Kind == "malformed") {
+			r := runBacklog(n0+i, sc, *seed*100003+int64(i))
+			recs = append(recs, r)
+		}
+		if sc.Fault.Kind == "writefail" && sc.Fault.At <= len(sc.Shapes) {
+			r := runBusy(2*n0+i, sc, *seed*100003+int64(i))
+			recs = append(recs, r)
+		}
 	}
 	fo, err := os.Create(*out)
 	must(err)
